@@ -143,10 +143,17 @@ async def spin(n):
         await instant
 
 
-async def at_cp(c, p):
-    """advance to date c (if in the future) and then p turns further"""
+async def at_cp(c, p, direct=False):
+    """advance to date c (if in the future) and then p turns further.
+    `time == c` resumes its waiter through a trigger activation, i.e. *behind* everything that
+    was queued for c by a plain delay before the trigger ran; with direct=True the wait is a
+    plain delay itself, so an activity that started earlier than a sleeper also runs before it
+    at c (used by the fault injectors when the attacker is placed first)"""
     if c > now():
-        await (time == c)
+        if direct:
+            await (time + (c - now()))
+        else:
+            await (time == c)
     i = 0
     while i < p:
         await instant
@@ -165,11 +172,14 @@ class Fault:
       CLOSE      the victim's task lives in a scope whose body raises at (c, p): the task is
                  closed synchronously (GeneratorExit)
       CANCEL_CLOSE  as CLOSE, with task.cancel() issued in the same turn just before
+      CLOSE_UNTIL   the victim's task is a child of `until(flag)`, the flag is set at (c, p): the
+                 task is closed by a scope that ends *without* an exception of its own (which
+                 would take precedence over whatever goes wrong while closing)
     `first` places the attacker before / after the victim in the run queue, so that together
     with p every activation boundary of the victim inside a time step is covered.
     """
-    NONE, CANCEL, INTERRUPT, CLOSE, CANCEL_CLOSE = range(5)
-    NAMES = ['none', 'cancel', 'interrupt', 'close', 'cancel+close']
+    NONE, CANCEL, INTERRUPT, CLOSE, CANCEL_CLOSE, CLOSE_UNTIL = range(6)
+    NAMES = ['none', 'cancel', 'interrupt', 'close', 'cancel+close', 'close by until']
 
     def __init__(self, E_, name, kinds, lo=0, hi=30, pmax=2, real=False, placements=True):
         self.name = name
@@ -198,7 +208,9 @@ class Fault:
             return None
         if self.first:
             scope.do(self._attacker())
-        if kind == Fault.INTERRUPT:
+        if kind == Fault.CLOSE_UNTIL:
+            scope.do(self._enclosing_until(make_victim))
+        elif kind == Fault.INTERRUPT:
             self.task = scope.do(self._interruptible(make_victim))
         else:
             self.task = scope.do(make_victim())
@@ -212,7 +224,7 @@ class Fault:
             self.log(self.name, 'fault', Fault.NAMES[self.kind])
 
     async def _attacker(self):
-        await at_cp(self.c, self.p)
+        await at_cp(self.c, self.p, direct=self.first)
         self._note()
         if self.kind == Fault.CANCEL:
             self.task.cancel()
@@ -223,11 +235,16 @@ class Fault:
         async with until(self.flag):
             await make_victim()
 
+    async def _enclosing_until(self, make_victim):
+        async with until(self.flag) as enc:
+            self.task = enc.do(make_victim())
+            await eternity
+
     async def _enclosing(self, make_victim):
         try:
             async with Scope() as enc:
                 self.task = enc.do(make_victim())
-                await at_cp(self.c, self.p)
+                await at_cp(self.c, self.p, direct=self.first)
                 self._note()
                 if self.kind == Fault.CANCEL_CLOSE:
                     # cancelled and, in the same turn, closed with its abandoned scope
